@@ -319,7 +319,7 @@ def run(ctx):
         guarded_self_test(ctx, js, tp)
         sample_from(ctx, js, tp)
     else:
-        parts = 4
+        parts = 8
         paths = [os.path.join(ctx.workdir, "recorded_%d.ndjson" % k) for k in range(parts)]
 
         def rec(k):
@@ -327,7 +327,7 @@ def run(ctx):
         outs = vlib.parallel(rec, list(range(parts)), workers=parts)
         for k in range(parts):
             rc, out = outs[k]
-            total += judge_file(ctx, js, paths[k], "argv <= 5 (<= 6 cheap shapes) exhaustive + random, part %d" % k, rc, out, nchunks=48)
+            total += judge_file(ctx, js, paths[k], "argv <= 5 (<= 6 cheap shapes) exhaustive + random, part %d" % k, rc, out, nchunks=16)
         guarded_self_test(ctx, js, paths[0])
         sample_from(ctx, js, paths[0])
         for p in paths:
